@@ -14,7 +14,8 @@ script:
 * the functions that consume an unordered collection (`_create_missing_domains`, hence the ports that
   `prepare` appends; `BuildPlan.digest` / `archive`) give the same result for every enumeration of it;
 * `Simulator.reset()` maps every state to the initial state of the same design, component by component, so
-  whatever is run afterwards is observed exactly as on a fresh simulator;
+  whatever is run afterwards is observed exactly as on a fresh simulator; committing the `pending` set gives
+  the same state in every iteration order;
 * extracting a plan creates exactly its files.
 
 `createMissingDomains` and `EngineState.reset` follow the *repaired* code (findings F3 and F21); the
